@@ -23,19 +23,23 @@ Proof.
 Qed.
 Lemma simplex1 : simplex 1 [1].
 Proof. split; [reflexivity|]. split; [repeat constructor; lra| cbn; lra]. Qed.
+(* the unrepaired starts: value / std::max(0.0001, 1 - discount) *)
+Definition fib_start_guarded (m : pomdp) : mat :=
+  let c := Qred (maxl (Rall m) / denom_guarded m) in mtab (nS (pm m)) (nA (pm m)) (fun _ _ => c).
+Definition blind_start_guarded (m : pomdp) (a : nat) : vec :=
+  repeat (Qred (minl (Rcol m a) / denom_guarded m)) (nS (pm m)).
+
 Theorem fib_guard_refuted_lemma : exists m rmin, wf_pomdp m /\ rmin_ok m rmin /\
-  ~ sound_ub m rmin (lin_surface m (snd (fib_run m 3 0))).
+  ~ sound_ub m rmin (lin_surface m (snd (fib_run_from m 3 0 (fib_start_guarded m)))).
 Proof.
   exists (guard_pomdp 1), 1. split; [apply guard_wf|]. split.
   - intros [|s] [|a] Hs Ha; try (cbn in Hs, Ha; lia). vm_compute. discriminate.
   - intros H. specialize (H [1] 0%nat simplex1). vm_compute in H. apply H. reflexivity.
 Qed.
-Theorem blind_guard_refuted_lemma : exists m rmax v, wf_pomdp m /\ rmax_ok m rmax /\
-  In v (snd (blind_run m true 3 0)) /\ ~ sound_lb m rmax (fun b => dot v b).
+Theorem blind_guard_refuted_lemma : exists m rmax, wf_pomdp m /\ rmax_ok m rmax /\
+  ~ sound_lb m rmax (fun b => dot (Nat.iter 3 (blind_step m 0) (blind_start_guarded m 0)) b).
 Proof.
-  exists (guard_pomdp (-1)), (-1), (nth 0 (snd (blind_run (guard_pomdp (-1)) true 3 0)) []).
-  split; [apply guard_wf|]. split; [| split].
+  exists (guard_pomdp (-1)), (-1). split; [apply guard_wf|]. split.
   - intros [|s] [|a] Hs Ha; try (cbn in Hs, Ha; lia). vm_compute. discriminate.
-  - vm_compute. left. reflexivity.
   - intros H. specialize (H [1] 0%nat simplex1). vm_compute in H. apply H. reflexivity.
 Qed.
